@@ -1,6 +1,7 @@
 import Dashu.Driver.Loop
 import Dashu.Model.Ratio.Spec
 import Dashu.Model.Ratio.Simplify
+import Dashu.Gen.Misc
 /-
   Driver of group `ratio` (C04, C18): runs the mirrored model; beside every result it evaluates the
   specification in core `Rat` arithmetic (`Model/Ratio/Spec.lean`) and the representation
@@ -344,6 +345,47 @@ def showOptQ (m : Except PanicKind (Option Q)) (specOk : Q → Bool) : String :=
   | .ok none => mismatch (ok "fuel") "model-fuel-exhausted"
   | .error k => mismatch (panic k.name) "c18-unexpected-panic"
 
+/-- the deviations of `simplest_from_float` that the code in /repo CURRENTLY has (used only to
+    attribute disagreements: the model result printed first is always the required one).
+    Maintenance: when a proposed fix is applied to /repo, set its switch to `false` here —
+    `uniformUlp`, `oddIncl`, `panicUnlimited` ← proposed_fixes/fbig-error-bounds.diff;
+    `zeroEndpoint` ← simplest-in-zero-endpoint.diff; `ceilHalf` has no patch yet (API decision);
+    `conjSimpler` needs no action (the mirrored path calls the regenerated `Dashu.Gen.is_simpler_than`). -/
+def activeQuirks : Quirks := { Quirks.code with zeroEndpoint := false }  -- 5fc5674 applied
+
+def parseMode : String → Option RMode
+  | "Zero" => some .zero | "Away" => some .away | "Up" => some .up | "Down" => some .down
+  | "HalfAway" => some .halfAway | "HalfEven" => some .halfEven
+  | _ => none
+
+/-- independent oracle: round the rational `x` to `p` digits in base `b` under `mode`; the value
+    of the rounded float -/
+def roundFBig (mode : RMode) (b p : Nat) (x : Rat) : Rat :=
+  if x = 0 then 0 else
+  let a : Rat := if x < 0 then -x else x
+  let neg := x < 0
+  let bq : Rat := (b : Rat)
+  let pw (e : Int) : Rat := if e ≥ 0 then bq ^ e.toNat else 1 / bq ^ (-e).toNat
+  -- e with b^(p-1) ≤ a / b^e < b^p
+  let e0 : Int := (digitsB b (a.num.natAbs + 1) a.num.natAbs : Int) - (digitsB b (a.den + 1) a.den : Int) - p
+  let fix (e : Int) : Int :=
+    if a / pw e < bq ^ (p - 1) then e - 1 else if a / pw e ≥ bq ^ p then e + 1 else e
+  let e := fix (fix (fix e0))
+  let t := a / pw e
+  let fl := t.floor
+  let fr := t - fl
+  let upMag : Bool :=
+    if fr = 0 then false else
+    match mode with
+    | .zero => false
+    | .away => true
+    | .up => !neg
+    | .down => neg
+    | .halfAway => decide (fr ≥ 1 / 2)
+    | .halfEven => decide (fr > 1 / 2) || (decide (fr = 1 / 2) && decide (fl % 2 = 1))
+  let m : Rat := ((if upMag then fl + 1 else fl : Int) : Rat) * pw e
+  if neg then -m else m
+
 def dispatch18 : Dispatch := fun _W op args =>
   match op, args with
   | "s.in", [a, b] => do
@@ -411,6 +453,60 @@ def dispatch18 : Dispatch := fun _W op args =>
         else true
       pure (if decide (Reduced r) && back && brute then ok (showQ r) else mismatch (ok (showQ r)) "c18-spec")
     | .ok none => pure (mismatch (ok "fuel") "model-fuel-exhausted")
+    | .error k => pure (mismatch (panic k.name) "c18-unexpected-panic")
+  | "s.fromfloat", [m, b, sg, e, pr] => do
+    let mode ← parseMode m
+    let b ← parseDecNat b; let sg ← parseInt sg; let e ← parseDec e; let pr ← parseDecNat pr
+    if b < 2 then none
+    let genSimpler : Q → Q → Bool := fun x y =>
+      Dashu.Gen.is_simpler_than (x.num, (x.den : Int)) (y.num, (y.den : Int))
+    let run (k : Quirks) := simplestFromFBig k simplerSpec genSimpler mode b sg e pr
+    let showR : Except PanicKind (Option Q) → String
+      | .ok (some r) => ok (showQ r)
+      | .ok none => "bad"
+      | .error k => panic k.name
+    match run Quirks.none with
+    | .ok none => none
+    | .ok (some r) =>
+      let f : Rat := (scaleQ sg b e).val
+      let back := if sg = 0 then r == Q.zero else if pr = 0 then r.val == f else roundFBig mode b pr r.val == f
+      -- nothing of smaller denominator rounds to f (small denominators only)
+      let brute := if r.den ≤ 300 ∧ sg ≠ 0 ∧ pr ≠ 0 then
+          (List.range r.den).all fun s0 =>
+            let s := s0 + 1
+            s ≥ r.den ||
+              (let pn := (r.val * s).floor
+               roundFBig mode b pr ((pn : Rat) / (s : Rat)) != f &&
+               roundFBig mode b pr (((pn + 1 : Int) : Rat) / (s : Rat)) != f)
+        else true
+      let req := ok (showQ r)
+      if !(decide (Reduced r) && back && brute) then pure (mismatch req "c18-spec") else
+      -- what the code at the pinned commit computes, and which deviations are responsible
+      let code := showR (run activeQuirks)
+      if code = req then pure req
+      else
+        -- deviations that are necessary for the code's result: switching one off changes it
+        let one (k : Quirks) (name : String) : List String :=
+          if showR (run k) ≠ code then [name] else []
+        let why :=
+          one { activeQuirks with conjSimpler := false } "is_simpler_than-conjunction" ++
+          one { activeQuirks with uniformUlp := false } "full-ulp-below-power-of-base" ++
+          one { activeQuirks with ceilHalf := false } "ceil-half-ulp-odd-base" ++
+          one { activeQuirks with oddIncl := false } "halfeven-inclusion-parity" ++
+          one { activeQuirks with panicUnlimited := false } "ulp-of-unlimited-precision" ++
+          one { activeQuirks with zeroEndpoint := false } "simplest_in-zero-endpoint"
+        -- if no single deviation is necessary, those that alone suffice to leave the required result
+        let suff (k : Quirks) (name : String) : List String :=
+          if showR (run k) ≠ req then [name] else []
+        let anyOf :=
+          suff { Quirks.none with conjSimpler := true } "is_simpler_than-conjunction" ++
+          suff { Quirks.none with uniformUlp := true } "full-ulp-below-power-of-base" ++
+          suff { Quirks.none with ceilHalf := true } "ceil-half-ulp-odd-base" ++
+          suff { Quirks.none with oddIncl := true } "halfeven-inclusion-parity" ++
+          suff { Quirks.none with panicUnlimited := true } "ulp-of-unlimited-precision"
+        pure (req ++ " (code-path: " ++ code.replace " " "_" ++ " because " ++
+          (if !why.isEmpty then ",".intercalate why
+           else if !anyOf.isEmpty then "any-of:" ++ "+".intercalate anyOf else "combination") ++ ")")
     | .error k => pure (mismatch (panic k.name) "c18-unexpected-panic")
   | _, _ => none
 
